@@ -111,7 +111,7 @@ def plan(tier, seed):
         units.append(("pe", tier, i))
     units.append(("bytes", tier))
     units += [("ladder", tier, name) for name in families.STREAM_FAMILIES["quick"] if not name.startswith("bytes") and name != "pairs"] + [("ladder-num", tier)]
-    units += [("nest", tier, i) for i in range(len(NEST_PAIRS))]
+    units += [("nest", tier, i) for i in range(len(NEST_PAIRS))] + [("midpoint", i, 4) for i in range(4)]
     units.append(("full", tier))
     units.append(("views",))
     units += core.interp_axis([("views",), ("xor", 0)] + [("sl", "ctx", tier, u[2]) for u in families.get("ctx").units(tier)])
@@ -274,6 +274,8 @@ def run_unit(unit, rec):
         run_ladder_num(rec, unit[1])
     elif kind == "nest":
         run_nest(rec, unit[1], unit[2])
+    elif kind == "midpoint":
+        run_midpoint(rec, unit[1], unit[2])
     elif kind == "full":
         run_full(rec, unit[1])
     elif kind == "views":
@@ -414,6 +416,20 @@ def run_nest(rec, tier, i):
     rec.sample({"family": "nesting-ladder", "opener": op, "closer": cl, "levels": core.ladder(2, hi)[-5:], "last": last})
 
 
+def run_midpoint(rec, part, nparts):
+    """Results whose span is empty or the whole text: an unquoted powershell command that starts exactly at the middle of a text of 2*s bytes
+    (the decoder's end = len - start then equals its start), for every s of the boundary ladder up to 100000 (values up to 100 kB), and commands
+    at offset 0 / at the very end."""
+    sizes = [s for s in core.ladder(16, 100000)]
+    for s in sizes[part::nparts]:
+        head = (b"echo a;" * (s // 7 + 1))[: s - 1] + b";"
+        tail = (b"powershell -c ls " + b"x " * (s // 2 + 1))[:s]
+        for data in (head + tail, tail, head + b"pwsh"):
+            rec.mark("states", ("midpoint", s, len(data)), True)
+            scan_case(rec, md(), data, 10, {"kind": "midpoint", "s": s, "len": len(data)}, 400000 + s, limit=90)
+    rec.sample({"family": "midpoint", "half_sizes": sizes[-5:], "part": part})
+
+
 def run_ladder_num(rec, tier):
     """Unbounded numeric spellings: leading zeros of chr() arguments, of array elements, of xor keys, of XML references, of ports."""
     for n in core.ladder(0, 10000):
@@ -493,3 +509,6 @@ def replay(w, rec):
         run_ladder_num(rec, "quick")
     elif kind == "nest":
         run_nest(rec, "quick" if w["n"] <= 1025 else "thorough", w["pair"])
+    elif kind == "midpoint":
+        for i in range(4):
+            run_midpoint(rec, i, 4)
